@@ -318,6 +318,16 @@ def oracle(case):
                 f"coord2cell on a vector mixing inside and outside points: "
                 f"element {k} {mix[k]} -> {gotm[k]}, expected {expm[k]}; "
                 f"geometry {case_geom(case)}")
+        # each point on its own, given as a plain (x, y) pair (list, tuple,
+        # 1-D array) - the way a single outlet is usually passed
+        for pt_, e_ in list(zip(mix, expm))[:12]:
+            for form in (list(pt_), tuple(pt_), np.array(pt_)):
+                one_ = g.coord2cell(form)
+                if len(one_) != 1 or one_[0] != e_:
+                    raise Violation(
+                        f"coord2cell of the single point {pt_} given as a "
+                        f"{type(form).__name__} -> {one_}, the same point "
+                        f"in a vector -> {e_}; geometry {case_geom(case)}")
         got = g.coord2cell(np.array(pts))
         if not np.all(got == -1):
             i = int(np.argmax(got != -1))
